@@ -39,7 +39,7 @@ WEIGHTS = {"rand": 3, "transpose": 2.5, "fuse": 2, "unfuse": 0.7, "conj": 0.7, "
 
 
 def budget(tier):
-    return 1200 if tier == "quick" else 25000
+    return 6000 if tier == "quick" else 60000
 
 
 def _generating():
